@@ -40,6 +40,7 @@ type hact struct {
 	code int
 	n    int
 	tag  int
+	cp   bool // kind 5 only: written with io.Copy from a reader that has no WriteTo (reaches ReadFrom if the writer has one)
 }
 
 func strToks(t *toks, s string) {
@@ -75,6 +76,9 @@ func (a hact) String() string {
 	case 4:
 		return fmt.Sprintf("WriteHeader(%d)", a.code)
 	case 5:
+		if a.cp {
+			return fmt.Sprintf("io.Copy(%dx%d)", a.n, a.tag)
+		}
 		return fmt.Sprintf("Write(%dx%d)", a.n, a.tag)
 	case 6:
 		return [...]string{"Flush", "ResponseController.Flush", "FlushError"}[a.n%3]
@@ -429,7 +433,11 @@ func streamHTTP(o opts) {
 					rw.WriteHeader(a.code)
 				case 5:
 					buf := bytes.Repeat([]byte{byte(a.tag)}, a.n)
-					rw.Write(buf)
+					if a.cp {
+						io.Copy(rw, io.LimitReader(bytes.NewReader(buf), int64(len(buf))))
+					} else {
+						rw.Write(buf)
+					}
 					smu.Lock()
 					retainedB[req.URL.Path] = append(retainedB[req.URL.Path], buf)
 					smu.Unlock()
@@ -502,6 +510,12 @@ func streamHTTP(o opts) {
 		strToks(cf, "X-Cache")
 		w.T(sidHTTP, cf)
 
+		type revisitT struct {
+			path string
+			view clientView
+			acts []hact
+		}
+		var revisit []revisitT
 		for si := 0; si < per; si++ {
 			seq++
 			path := fmt.Sprintf("/s%d", seq)
@@ -595,7 +609,7 @@ func streamHTTP(o opts) {
 						n = 0
 					}
 					total += n
-					acts = append(acts, hact{kind: 5, n: n, tag: 65 + len(acts)%50})
+					acts = append(acts, hact{kind: 5, n: n, tag: 65 + len(acts)%50, cp: n > 0 && r.Intn(5) == 0})
 				}
 				if shape == 5 {
 					if lateDel || r.Intn(3) == 0 {
@@ -811,6 +825,9 @@ func streamHTTP(o opts) {
 				if !sameView(second, third) {
 					m.violate("C14", fmt.Sprintf("second hit differs from first hit after header/body mutation by the harness: %v vs %v", second.hdr, third.hdr), path)
 				}
+				if method == "GET" && len(revisit) < 40 {
+					revisit = append(revisit, revisitT{path, second, acts})
+				}
 				if ncalls != 1 {
 					m.violate("C14", fmt.Sprintf("stored response but handler called %d times", ncalls), path)
 				}
@@ -821,6 +838,18 @@ func streamHTTP(o opts) {
 			if seq <= 3 {
 				m.sample(fmt.Sprintf("%s %s script=%v stored=%v", method, path, acts, stored))
 			}
+		}
+		// every stored response once more, after all the other responses of this middleware went through the same
+		// capture path: a hit still replays what its first hit replayed
+		for _, rv := range revisit {
+			again, err := doRequest(cl, "GET", srv.URL+rv.path, rv.acts)
+			if err != nil || len(again.hdr["X-Cache"]) != 1 || again.hdr["X-Cache"][0] != "HIT" {
+				continue // expired or displaced meanwhile
+			}
+			if !sameView(rv.view, again) {
+				m.violate("C14", fmt.Sprintf("a later hit of %s (after %d other responses were captured and stored) differs from its first hit: status %d/%d, body %v / %v, headers %v / %v; script=%v", rv.path, len(revisit)-1, rv.view.status, again.status, rle(rv.view.body), rle(again.body), rv.view.hdr, again.hdr, rv.acts), rv.path)
+			}
+			m.count("revisited_hits")
 		}
 		srv.Close()
 		mw.Close()
